@@ -150,6 +150,10 @@ def gen_plan(rng, tier, index):
     if plan["app_sends"]:
         plan["linktest"] = 100000   # no unrelated timer may be needed to get the close sequence going again
     sched["seed"] = rng.getrandbits(48)
+    if plan["kind"] != "cut" or index >= 4 * len(cases):
+        if rng.random() < 0.5:
+            # fault: freshly started threads (accept/connect/receiver/select threads, API callers) frozen for a while
+            sched["stall"] = {"q": 0.25, "J": 40, "durs": [0.05, 0.5, 2.0], "max": 3}
     plan["sched"] = sched
     return plan
 
@@ -219,16 +223,25 @@ def run(sim, plan):
     def establish(first):
         """Bring up a TCP connection; returns the HsmsPeer or None."""
         if active:
-            n0 = len(listener.peers)
-            ok = sim.wait_until(lambda: len(listener.peers) > n0, plan["t5"] + 5)
+            # a connection that the endpoint has established since the last one we used counts (it may already be up)
+            n0 = getattr(listener, "used", 0)
+            ok = sim.wait_until(lambda: len(listener.peers) > n0 and listener.peers[-1].open, plan["t5"] + 5)
+            if ok:
+                listener.used = len(listener.peers)
             return listener.peers[-1] if ok else None
-        peer = None
-        end = sim.now + 5
-        while peer is None and sim.now < end:
+        # a passive HSMS endpoint serves one connection at a time: an attempt that lands while the previous connection
+        # is still being torn down is reset, a real client simply tries again
+        end = sim.now + 8
+        while sim.now < end:
             peer = hsmsenv.connect_peer(sim, label=f"peer{state['conn'] + 1}")
             if peer is None:
                 sim.advance(0.25)
-        return peer
+                continue
+            sim.advance(0.15)
+            if peer.eof is None:
+                return peer
+            sim.probe("connection_attempt_reset")
+        return None
 
     # -- enable ---------------------------------------------------------------------------------
     ep.proto.enable()
@@ -367,12 +380,19 @@ def _after_link_loss(sim, plan, ep, peer, L, what):
 
 def _reconnect_and_verify(sim, plan, ep, establish, L):
     """R3: the still-enabled endpoint accepts/creates a new connection, selects, delivers the first frame sent."""
-    peer = establish(False)
-    if peer is None:
-        sim.violation("C09.R3", "after link loss the enabled endpoint did not accept/establish a new connection",
-                      sig=_hang_sig(sim, "C09.R3", "no-new-connection"))
+    for attempt in range(4):
+        peer = establish(False)
+        if peer is None:
+            sim.violation("C09.R3", "after link loss the enabled endpoint did not accept/establish a new connection",
+                          sig=_hang_sig(sim, "C09.R3", "no-new-connection"))
+        try:
+            _verify_session(sim, plan, ep, peer, L)
+            break
+        except PeerReset:
+            sim.probe("connection_attempt_reset")
+    else:
+        sim.violation("C09.R3", "four connection attempts in a row were reset by the endpoint", sig="C09.R3|always-reset")
     sim.probe("reconnected")
-    _verify_session(sim, plan, ep, peer, L)
     second = plan.get("second_fault")
     if second == "fin":
         peer.close()
@@ -383,16 +403,29 @@ def _reconnect_and_verify(sim, plan, ep, establish, L):
 def _reenable_and_verify(sim, plan, ep, establish, listener, L):
     if ep.state != "NOT_CONNECTED":
         sim.violation("C09.R1", f"after disable() returned the state is {ep.state}", sig="C09.R1|state-after-disable")
+    if listener is not None:
+        listener.used = len(listener.peers)   # connections of the time before the disable do not count
     call = ep.call_async("enable2", ep.proto.enable)
     if not sim.wait_until(lambda: call["done"], L):
         sim.violation("C09.R2", "enable() after disable() did not return", sig=_hang_sig(sim, "C09.R2", "enable"))
-    peer = establish(False)
-    if peer is None:
-        sim.violation("C09.R3", "after disable()+enable() the endpoint did not accept/establish a connection",
-                      sig=_hang_sig(sim, "C09.R3", "no-connection-after-reenable"))
+    for attempt in range(4):
+        peer = establish(False)
+        if peer is None:
+            sim.violation("C09.R3", "after disable()+enable() the endpoint did not accept/establish a connection",
+                          sig=_hang_sig(sim, "C09.R3", "no-connection-after-reenable"))
+        try:
+            _verify_session(sim, plan, ep, peer, L)
+            break
+        except PeerReset:
+            sim.probe("connection_attempt_reset")
+    else:
+        sim.violation("C09.R3", "four connection attempts in a row were reset by the endpoint", sig="C09.R3|always-reset")
     sim.probe("reconnected")
-    _verify_session(sim, plan, ep, peer, L)
     _final_disable(sim, plan, ep, L)
+
+
+class PeerReset(Exception):
+    """The endpoint reset this connection attempt before serving it (it serves one connection at a time)."""
 
 
 def _verify_session(sim, plan, ep, peer, L):
@@ -403,7 +436,10 @@ def _verify_session(sim, plan, ep, peer, L):
         peer.send(rc.control(rc.SELECT_RSP, peer.frames_of(rc.SELECT_REQ)[0].system))
     else:
         peer.send(rc.control(rc.SELECT_REQ, 0x51))
-        if not sim.wait_until(lambda: peer.frames_of(rc.SELECT_RSP, 0x51), plan["t6"] + 1):
+        sim.wait_until(lambda: peer.frames_of(rc.SELECT_RSP, 0x51) or peer.eof is not None, plan["t6"] + 1)
+        if peer.eof is not None and not peer.frames_of(rc.SELECT_RSP, 0x51) and not peer.frames:
+            raise PeerReset()
+        if not peer.frames_of(rc.SELECT_RSP, 0x51):
             sim.violation("C09.R3", "Select.req on the new connection was not answered",
                           sig=_hang_sig(sim, "C09.R3", "select-unanswered"))
     if not sim.wait_until(lambda: ep.state == "CONNECTED_SELECTED", plan["t6"] + 1):
